@@ -249,6 +249,15 @@ def run(tier):
                     C.append([cls, names, vals, ok, obs])
                     if err:
                         errs.append(err)
+        # boundary values of the numeric options: 0 is a meaningful setting (a non-blocking read, an immediate retry), not "unset"
+        for given in ({"timeout": 0}, {"reconnect_timeout": 0}, {"timeout": 0, "reconnect_timeout": 0.0}, {"timeout": 0.0, "baud": 9600},
+                      {"reconnect_timeout": 0, "port": 1}):
+            if all(o in opts for o in given):
+                ok, obs, err = observe_config(cls, given)
+                names = list(given)
+                C.append([cls, names, [expected_text(o, given[o]) for o in names], ok, obs])
+                if err:
+                    errs.append(err)
     V = version_records(tier, rng)
     path = os.path.join(wd, "config.json")
     with open(path, "w", encoding="utf-8") as fh:
